@@ -7,8 +7,8 @@ LEVEL = 'model_checking'
 
 def run(rep: Report, tier: str, only=None) -> None:
 	thorough = tier == 'thorough'
-	t = 900 if thorough else 300
-	bit_bound = 1 << 5 if thorough else 1 << 3
+	t = 1800 if thorough else 300
+	bit_bound = 1 << 4 if thorough else 1 << 3
 	jobs: list[Job] = []
 	for op in ['+', '-', '*', '%']:
 		jobs.append(Job('K1.int_binop', H, 'int_binop', {'op': op}, t, 'S', 'unbounded symbolic ints', ('value',)))
